@@ -2088,10 +2088,10 @@ def _step(H: History, call: dict[str, Any]) -> bool:
         # torn state it leaves behind is a consequence, not a second finding)
         vbad = check_views(
             work, A,
-            # (a call the model deems invalid but the code accepts may leave
-            # anything behind: look at all views even when they are not this
-            # run's subject, so that later calls are not blamed for it)
-            full=H.f_views or (status == 'invalid' and err is None),
+            # (a call outside the documented domain, accepted or refused, may
+            # leave anything behind: look at all views even when they are not
+            # this run's subject, so that later calls are not blamed for it)
+            full=H.f_views or status != 'valid',
             with_copy=H.f_views and (H.step_no % 4 == 0 or H.every_step),
             heavy=H.step_no % 2 == 0 or name in STRUCTURAL or H.every_step,
         )
